@@ -124,13 +124,23 @@ def gen(rng, idx, tier):
     same_n = _draw_n(rng) if rng.random() < 0.3 else None
     # wide dynamic range (six decades) with a large exponent: every |x_i|^p is still representable (|p| * 3 <= 290), but
     # intermediate quotients like (max/min)^|p| are not -- only for the p-norm, KS / soft-max would leave their |rho x| range
-    wide = agg == "pnorm" and rng.random() < 0.15
-    if wide:
+    wide = rng.random() < 0.15
+    if wide and agg == "pnorm":
         case["param"] = sign * float(rng.choice([30.0, 60.0, 90.0]))
         case["sc"] = 0
+    elif wide:
+        # KS / soft-max on data spanning 0.5 .. 30 with a large |rho|: admissible for the soft *minimum* (rho < 0, largest
+        # exponent -|rho|*min), skipped by the range guard for the soft maximum
+        case["param"] = -float(rng.choice([30.0, 60.0, 100.0])) if rng.random() < 0.8 else float(rng.choice([5.0, 15.0]))
+        case["sc"] = 0
+        if case["scaling"] is not None:
+            case["scaling"]["which"] = "min" if case["param"] < 0 else "max"
+        if case["active"] is not None:
+            case["active"] = _active(rng, "high" if case["param"] < 0 else "low")
     for _ in range(nops):
         n = same_n if (same_n is not None and rng.random() < 0.7) else _draw_n(rng)
-        case["ops"].append(dict(n=n, dist="wide" if wide else str(rng.choice(DISTS)), seed=int(rng.integers(1 << 30))))
+        case["ops"].append(dict(n=n, dist=("wide" if agg == "pnorm" else "wide2") if wide else str(rng.choice(DISTS)),
+                                seed=int(rng.integers(1 << 30))))
     return case
 
 
@@ -231,6 +241,8 @@ def make_data(op, sc):
         u = rng.permutation(1.0 + np.arange(n)) * (4.0 / (n + 1))
     elif dist == "wide":
         return 10.0 ** rng.uniform(-2.8, 2.8, n)
+    elif dist == "wide2":
+        return 10.0 ** rng.uniform(-0.3, 1.5, n)
     else:
         raise ValueError(dist)
     return np.asarray(u, dtype=float) * (2.0 ** sc)
@@ -345,7 +357,10 @@ def judge_mask(x, m, A, probe, skip):
 def in_range(agg, param, x):
     if agg == "pnorm":
         return float(np.max(np.abs(param * np.log(x)))) <= 600.0      # every |x_i|^p (and their sum) is representable
-    return float(np.max(np.abs(param * x))) <= 200.0
+    # KS / soft-max: the largest exponent rho*x_i must neither overflow nor underflow (then every term the definition
+    # needs is representable and their sum is positive); the smaller terms may underflow harmlessly
+    e_max = float(np.max(param * x))
+    return -600.0 <= e_max <= 600.0
 
 
 def bounds(agg, param, xs):
